@@ -41,3 +41,23 @@ def emptyState (defs : List ResDef) : State := { defs, objs := [], applied := []
 
 end Api
 end Mc
+
+namespace Mc
+namespace Prog
+
+/-- total sequential run (no fuel: a program is a well-founded tree) -/
+def runT {α σ : Type} (step : σ → Req → Resp × σ) : Prog α → σ → α × σ
+  | .ret a, s => (a, s)
+  | .call r k, s => runT step (k (step s r).1) (step s r).2
+
+theorem runT_bind {α β σ : Type} (step : σ → Req → Resp × σ) (p : Prog α) (f : α → Prog β) :
+    ∀ s, runT step (p.bind f) s = runT step (f (runT step p s).1) (runT step p s).2 := by
+  induction p with
+  | ret a => intro s; rfl
+  | call r k ih => intro s; simp only [Prog.bind, runT]; exact ih _ _
+
+@[simp] theorem runT_pure {α σ : Type} (step : σ → Req → Resp × σ) (a : α) (s : σ) :
+    runT step (pure a : Prog α) s = (a, s) := rfl
+
+end Prog
+end Mc
